@@ -119,7 +119,9 @@ fn replica_far(ctx: &mut Ctx, r: &mut Rng, variant: u64) -> Result<(), Fail> {
             ctx.count("replica_contiguous_jump_by_gap_fill");
         }
         ctx.count("big_core_observations");
-        if k % 3 == 2 {
+        // variant 0 keeps the same instance alive until after the straddling clear below: a
+        // reopen materialises the never-populated gap page from the (zero-filled) file
+        if k % 3 == 2 && variant != 0 {
             rep.reopen()?;
             rep.check(CMP_ALL, 32, "after replica reopen")?;
             let pages = (snapshot(&rep.world)[2].len() + 4095) / 4096;
